@@ -284,4 +284,47 @@ _LOAD_CACHE = {}''')],
          old='''    for ibond in range(nbond):''',
          new='''    for ibond in range(nbond - 1):''',
          why="the last row of the pre-allocated (np.empty) bond array is never filled: the result is whatever the memory held"),
+    # ---------------------------------------------------------------- environment seams (rounds 5 and 6)
+    dict(id="m29_mol2_writes_the_date", prop="C16", file="iodata/formats/mol2.py",
+         old='''    print("# Mol2 file created with Iodata", file=f)''',
+         new='''    import datetime
+
+    print(f"# Mol2 file created with Iodata on {datetime.date.today()}", file=f)''',
+         why="the written bytes depend on the wall clock (clock seam)"),
+    dict(id="m30_cube_written_in_memory_order", prop="C16", file="iodata/formats/cube.py",
+         old='''    for value in cube_data.flat:''',
+         new='''    for value in np.nditer(cube_data):''',
+         why="the same values in another memory layout give other bytes (metamorphic layout relation)"),
+    dict(id="m30b_cube_written_in_memory_order_c09", prop="C09", file="iodata/formats/cube.py",
+         old='''    for value in cube_data.flat:''',
+         new='''    for value in np.nditer(cube_data):''',
+         why="a Fortran-ordered grid is written in the wrong order: the file read back differs from the object"),
+    dict(id="m31_makedirs_before_validation", prop="C08", file="iodata/api.py",
+         old='''    format_module = _select_format_module(filename, "dump_one", fmt)
+    try:
+        _check_required(filename, data, format_module.dump_one)''',
+         new='''    if os.path.dirname(filename):
+        os.makedirs(os.path.dirname(filename), exist_ok=True)
+    format_module = _select_format_module(filename, "dump_one", fmt)
+    try:
+        _check_required(filename, data, format_module.dump_one)''',
+         why="directories are created before the call is validated (virtual file system: missing directory)"),
+    dict(id="m32_main_restores_sigpipe", prop="C18", file="iodata/__main__.py",
+         old='''    np.seterr(divide="raise", over="raise", invalid="raise")
+''',
+         new='''    np.seterr(divide="raise", over="raise", invalid="raise")
+    import signal
+
+    signal.signal(signal.SIGPIPE, signal.SIG_DFL)
+''',
+         why="a reader that leaves kills the converter silently (signal seam)"),
+    dict(id="m33_segments_freeze_exponents", prop="C09", file="iodata/convert.py",
+         old='''                shells.append(
+                    Shell(shell.icenter, [angmom], [kind], shell.exponents, coeffs.reshape(-1, 1))
+                )''',
+         new='''                shells.append(
+                    Shell(shell.icenter, [angmom], [kind], shell.exponents, coeffs.reshape(-1, 1))
+                )
+                shells[-1].exponents.flags.writeable = False''',
+         why="the caller's exponent arrays become read-only (array flags in the snapshot)"),
 ]
